@@ -72,10 +72,15 @@ pub fn corner_replays(v: (u8, u8)) -> Vec<(AbsReplay, &'static str)> {
 	for frames in [true, false] {
 		for (meta, mname) in [(Some(default_meta()), ""), (None, "no-metadata"), (Some(vec![]), "empty-metadata")] {
 			for ends in [1u8, 0, 2] {
-				for gecko in [false, true] {
-					if gecko && !spec::gte(v, (3, 3)) {
+				for gecko in [0u32, 700, 1024] {
+					if gecko != 0 && !spec::gte(v, (3, 3)) {
 						continue;
 					}
+					if gecko == 1024 && !(frames && mname.is_empty()) {
+						continue; // the block-filling list: with frames and metadata, all three end variants
+					}
+					let gecko_live = gecko;
+					let gecko = gecko != 0;
 					let mut a = base.clone();
 					if !frames {
 						a.frames.clear();
@@ -83,7 +88,7 @@ pub fn corner_replays(v: (u8, u8)) -> Vec<(AbsReplay, &'static str)> {
 					a.metadata = meta.clone();
 					a.ends = ends;
 					if gecko {
-						a.gecko = Gecko::Live { live: 700, nonzero_pad: true };
+						a.gecko = Gecko::Live { live: gecko_live, nonzero_pad: gecko_live == 700 };
 					}
 					let class: &'static str = match (frames, mname, ends, gecko) {
 						(true, "", 1, false) => "base",
